@@ -45,8 +45,9 @@ LEVEL_NOTE = ("Hand model tied to the code by correspondence only. Oracles (not 
               "(contract used: frequencies are computed independently; validated by per-frequency calls), "
               "maps.ellipse_indices (any mask), Map*.backward, log10/10**. The FD quotient approximating "
               "the derivative is NOT proved. Exact arithmetic, rounding not modelled. Three defects found "
-              "and reported as known findings (merge with stored value -1, relative receivers, merge + "
-              "gradient); the correspondence stream avoids those inputs.")
+              "while building (merge sentinel -1, relative receivers, merge + gradient) are repaired in "
+              "emg3d; model and theorems describe the repaired code, the as-found variants are kept as "
+              "*_unfixed_refuted theorems, and the formerly avoided inputs are generated.")
 TECHNIQUE = ("Coq proof (induction over index scans / receiver loop, lra/field over R) over a hand model "
              "+ differential correspondence (vm_compute on Q, empymod called from the model's arguments)")
 DESIGN_REF = "DESIGN.md section 6 C19"
@@ -56,14 +57,10 @@ TRUSTED = ["Model/Layered.v: hand model of extract_1d / layered / _fd_gradient (
            "empymod.bipole (third party) is an oracle; the harness calls it with the model's arguments",
            "emg3d.maps.ellipse_indices output is passed to the model as the mask oracle",
            "Map*.backward / derivative_chain (property C14) are used as given by the harness"]
-ASSUMES = ["gradient clause: layered_opts merge=False (merge=True + gradient is known finding C19-merge-gradient)",
-           "receivers with absolute coordinates (relative receivers: known finding C19-relative-receiver)",
-           "merge on log maps: top layer value != -1 (known finding C19-merge-minus-one)",
-           "empymod computes frequencies independently (bipole_pointwise)"]
+ASSUMES = ["empymod computes frequencies independently (bipole_pointwise)",
+           "merge=True compares floats for equality: the tie uses it where equal layers give bit-identical "
+           "floats (single-column selection or laterally invariant model)"]
 
-SIG_MERGE = "C19: extract_1d(merge=True) drops leading layers whose stored value is -1"
-SIG_REL = "C19: layered() ignores Receiver.relative"
-SIG_MGRAD = "C19: layered gradient with layered_opts merge=True"
 
 HEADER = (K.CASE_HEADER + """From Coq Require Import String Bool.
 From V Require Import Model.Layered.
@@ -85,10 +82,11 @@ Definition show (nx ny : Z) (r : xerr + @ext Q) :=
 Definition oq (o : option (list Q)) : bool * list (Z * Z) :=
   match o with Some l => (true, map out_q l) | None => (false, []) end.
 Definition desc_t : Type :=
-  (Z * list (Z * Z) * list (Z * Z) * (bool * list (Z * Z)) * (bool * list (Z * Z)) * (bool * list (Z * Z)) * (Z * Z))%type.
-Definition desc (i : nat) (d ch : list Q) (cv ep mp : option (list Q)) (fs : list Q) : list desc_t :=
-  map (fun f => (Z.of_nat i, map out_q d, map out_q ch, oq cv, oq ep, oq mp, out_q f)) fs.
-Definition desc0 : desc_t := (0, [], [], (false, []), (false, []), (false, []), (0, 1)).
+  (Z * list (Z * Z) * list (Z * Z) * list (Z * Z) * (bool * list (Z * Z)) * (bool * list (Z * Z)) * (bool * list (Z * Z)) * (Z * Z))%type.
+Definition desc (i : nat) (q : Q * Q * Q) (d ch : list Q) (cv ep mp : option (list Q)) (fs : list Q) : list desc_t :=
+  map (fun f => (Z.of_nat i, map out_q [fst (fst q); snd (fst q); snd q], map out_q d, map out_q ch,
+                 oq cv, oq ep, oq mp, out_q f)) fs.
+Definition desc0 : desc_t := (0, [], [], [], (false, []), (false, []), (false, []), (0, 1)).
 Definition showrows (r : xerr + list (list (option desc_t))) :=
   match r with
   | inl EValueError => (1, [])
@@ -132,6 +130,14 @@ def q3(a):
 
 def qp(p):
     return f"({V.q(float(p[0]))}, {V.q(float(p[1]))})"
+
+
+def qp3(p):
+    return f"({V.q(float(p[0]))}, {V.q(float(p[1]))}, {V.q(float(p[2]))})"
+
+
+def rcv(r):
+    return f"({V.coq_bool(bool(r.relative))}, {qp3(r.center)})"
 
 
 def bl(m):
@@ -179,7 +185,7 @@ def rand_grid(rng, nmax=(5, 5, 4), nmin=(1, 1, 1)):
 
 
 PALETTE_POS = [0.25, 0.5, 1.0, 2.0, 3.0, 0.125, 8.0, 1.5]
-PALETTE_LOG = [-2.0, -1.5, -0.5, 0.0, 0.5, 1.0, 2.0, -0.25]
+PALETTE_LOG = [-2.0, -1.5, -0.5, 0.0, 0.5, 1.0, 2.0, -0.25, -1.0]
 
 
 def rand_values(rng, shape, mapping, lateral_invariant, palette_n=4):
@@ -195,6 +201,11 @@ def rand_values(rng, shape, mapping, lateral_invariant, palette_n=4):
         if shape[2] > 1 and rng.random() < 0.5:
             k = rng.randint(1, shape[2] - 1)
             a[:, :, k] = a[:, :, k - 1]
+    # log maps: stored value -1 on top (once the np.r_[-1, v] sentinel of merge)
+    if mapping.startswith('L') and rng.random() < 0.35:
+        a[:, :, 0] = -1.0
+        if shape[2] > 2 and rng.random() < 0.5:
+            a[:, :, 1] = -1.0
     return a
 
 
@@ -306,8 +317,7 @@ def gen_extract_case(rng, thorough):
     p0 = rand_point(rng, grid, hs, org)
     p1 = None if rng.random() < 0.2 else rand_point(rng, grid, hs, org)
     # merge compares floats for equality: only where averaged floats of equal layers are
-    # bit-identical (single-cell selection or laterally invariant model); the palettes do
-    # not contain -1 (known finding C19-merge-minus-one)
+    # bit-identical (single-cell selection or laterally invariant model)
     merge = rng.random() < 0.5 and (method == 'midpoint' or li)
     return dict(hs=hs, org=org, model=model, mapping=mapping, case=case, lname=lname, method=method,
                 ellipse=ellipse, p0=p0, p1=p1, merge=merge, malformed=malformed)
@@ -370,7 +380,9 @@ def compare_extract(c, m, dis):
     for nm, pv in zip(names, props):
         mv = layer_floats(frl(pv), c['lname'], mid)
         iv = getattr(lay, nm)[0, 0, :]
-        if iv.shape != mv.shape or not all(rel_close(a, b, 1e-10, 1e-12) for a, b in zip(iv, mv)):
+        # scale: largest operand of the weighted sum (values of a log map may cancel)
+        sc = float(np.max(np.abs(getattr(model, nm))))
+        if iv.shape != mv.shape or not all(rel_close(a, b, 1e-10, sc) for a, b in zip(iv, mv)):
             dis.append({'what': f'extract_1d layer values ({nm}) differ from the model', 'case': brief,
                         'impl': iv.tolist(), 'model': mv.tolist(), 'midpoint': mid})
             return 'bad'
@@ -413,6 +425,8 @@ def run_extract(ctx, n, dis, hist):
             done += 1
             hist['extract:' + kind] = hist.get('extract:' + kind, 0) + 1
             hist['map:' + c['mapping']] = hist.get('map:' + c['mapping'], 0) + 1
+            if c['merge'] and c['lname'] and np.all(c['model'].property_x[:, :, 0] == -1.0):
+                hist['extract:merge,top=-1'] = hist.get('extract:merge,top=-1', 0) + 1
             if kind not in ('err', 'bad'):
                 seen.add((kind, c['mapping'], c['case'], c['merge'], tuple(c['model'].shape)))
     samples = [dict(shape=list(c['model'].shape), mapping=c['mapping'], case=c['case'], method=c['method'],
@@ -421,7 +435,7 @@ def run_extract(ctx, n, dis, hist):
 
 
 # ------------------------------------------- (B, C) Simulation(layered=True)
-def rand_survey(rng, grid, hs, org, nsrc, nrec, nfreq, with_data):
+def rand_survey(rng, grid, hs, org, nsrc, nrec, nfreq, with_data, force_relative=False):
     import emg3d
     x0, x1 = org[0], org[0] + sum(hs[0])
     y0, y1 = org[1], org[1] + sum(hs[1])
@@ -454,11 +468,18 @@ def rand_survey(rng, grid, hs, org, nsrc, nrec, nfreq, with_data):
     sc = [s.center for s in srcs]
     while len(recs) < nrec:
         x, y, z = xy(x0, x1), xy(y0, y1), zc()
-        if any(np.hypot(x - c[0], y - c[1]) < 200.0 for c in sc):
-            x += 400.0
         az, el = rng.choice([0.0, 60.0, 90.0]), rng.choice([0.0, 0.0, 90.0])
         cls = rng.choice([emg3d.RxElectricPoint, emg3d.RxElectricPoint, emg3d.RxMagneticPoint])
-        recs.append(cls((x, y, z, az, el)))
+        relative = rng.random() < 0.35 or (force_relative and not recs)
+        if relative:      # offset from the source centre (the first source defines it)
+            off = np.array([x, y, z]) - sc[0]
+            pos = [c + off for c in sc]
+        else:
+            off, pos = None, [np.array([x, y, z])] * len(sc)
+        if any(np.hypot(p[0] - c[0], p[1] - c[1]) < 200.0 for p, c in zip(pos, sc)) or \
+                any(np.hypot(p[0] - c[0], p[1] - c[1]) < 200.0 for p in pos for c in sc):
+            continue
+        recs.append(cls((*off, az, el), relative=True) if relative else cls((x, y, z, az, el)))
     freqs = rng.sample([0.25, 0.5, 1.0, 2.0, 4.0], nfreq)
     survey = emg3d.Survey(srcs, recs, freqs, noise_floor=1e-15, relative_error=0.05)
     pattern = 'none'
@@ -497,7 +518,7 @@ def gen_sim_case(rng, thorough, grad, k=0):
     lopts = {'method': method}
     if method in ('prism', 'cylinder'):
         lopts['ellipse'] = rand_ellipse(rng, hs)
-    if not grad and rng.random() < 0.4 and (li or method in ('midpoint', 'source', 'receiver')):
+    if rng.random() < 0.4 and (li or method in ('midpoint', 'source', 'receiver')):
         lopts['merge'] = True
     with_data = grad or rng.random() < 0.6
     survey, pattern = rand_survey(rng, grid, hs, org, rng.randint(1, 2), rng.randint(1, 3 if grad else 4),
@@ -516,7 +537,8 @@ def sim_brief(c):
                 mu_r=c['model'].mu_r is not None, epsilon_r=c['model'].epsilon_r is not None,
                 layered_opts={k: (dict(v) if isinstance(v, dict) else v) for k, v in c['lopts'].items()},
                 sources=[[s.__class__.__name__, [float(x) for x in s.coordinates]] for s in sv.sources.values()],
-                receivers=[[r.__class__.__name__, [float(x) for x in r.coordinates]] for r in sv.receivers.values()],
+                receivers=[[r.__class__.__name__, [float(x) for x in r.coordinates], bool(r.relative)]
+                           for r in sv.receivers.values()],
                 frequencies=[float(f) for f in sv.frequencies.values()], observed=c['pattern'],
                 hx=c['hs'][0], hy=c['hs'][1], hz=c['hs'][2], origin=c['org'])
 
@@ -540,7 +562,7 @@ def common_defs(c, tag, lg, pw, bw):
         p0 = src.center[:2]
         masks = []
         for rec in recs:
-            p1 = rec.center[:2]
+            p1 = rec.center_abs(src)[:2]
             if method in ('prism', 'cylinder'):
                 use = mask_for(model, p0, p1, ell)
             else:
@@ -548,13 +570,15 @@ def common_defs(c, tag, lg, pw, bw):
             masks.append(f"({qp(p1)}, tab2 {bl(use)})")
         txt += (f"Definition {tag}_ell{si} (p0 p1 : Q * Q) : Z -> Z -> bool := mask_by ["
                 + '; '.join(masks) + "] p1.\n")
-        args[si] = (f"{tag}_g {V.coq_bool(c['lname'])} {bw} {tag}_props {V.coq_bool(vti)} "
-                    f"{V.coq_bool(model.mu_r is not None)} {V.coq_bool(model.epsilon_r is not None)} "
-                    f"{tag}_ell{si} {V.coq_str(method)} {V.coq_bool(has_radius)} "
-                    f"{V.coq_bool(bool(lo.get('merge', False)))} {qp(p0)} {ql(freqs)}")
-        args[(si, 'x')] = (f"qleb {lg} {pw} {tag}_g {V.coq_bool(c['lname'])} {tag}_props {tag}_ell{si} "
-                           f"{V.coq_str(method)} {V.coq_bool(has_radius)} "
-                           f"{V.coq_bool(bool(lo.get('merge', False)))} {qp(p0)}")
+        mg = V.coq_bool(bool(lo.get('merge', False)))
+        head = (f"{tag}_g {V.coq_bool(c['lname'])} {bw} {tag}_props {V.coq_bool(vti)} "
+                f"{V.coq_bool(model.mu_r is not None)} {V.coq_bool(model.epsilon_r is not None)} "
+                f"{tag}_ell{si} {V.coq_str(method)} {V.coq_bool(has_radius)}")
+        args[si] = f"{head} {mg} {qp3(src.center)} {ql(freqs)}"
+        args[(si, 'g')] = f"{head} {qp3(src.center)} {ql(freqs)}"      # layered_grad: no merge
+        for key, m2 in (('x', mg), ('x0', 'false')):
+            args[(si, key)] = (f"qleb {lg} {pw} {tag}_g {V.coq_bool(c['lname'])} {tag}_props {tag}_ell{si} "
+                               f"{V.coq_str(method)} {V.coq_bool(has_radius)} {m2} {qp3(src.center)}")
     return txt, args, recs, freqs
 
 
@@ -566,7 +590,7 @@ def sim_case_coq(c, tag):
     txt, args, recs, freqs = common_defs(c, tag, lg, 'idq', 'idq')
     sv = c['survey']
     has_data = bool(np.isfinite(sv.data.observed.data).sum() > 0)
-    rcs = '[' + '; '.join(qp(r.center[:2]) for r in recs) + ']'
+    rcs = '[' + '; '.join(rcv(r) for r in recs) + ']'
     for si, sname in enumerate(sv.sources.keys()):
         if has_data:
             fin = np.isfinite(sv.data.observed.loc[sname, :, :].data)
@@ -576,14 +600,19 @@ def sim_case_coq(c, tag):
             obs = "None"
         txt += (f"Eval vm_compute in showrows (layered_fwd qleb {lg} idq desc_t {args[si]} desc {rcs} {obs}).\n")
         txt += (f"Eval vm_compute in map (fun rc => show {nx} {ny} (extract_for {args[(si, 'x')]} rc)) {rcs}.\n")
+        txt += (f"Eval vm_compute in map (fun rc => show {nx} {ny} (extract_for {args[(si, 'x0')]} rc)) {rcs}.\n")
     return txt
 
 
-def bipole_direct(src, rec, depth, cond_h, cond_v, eperm, mperm, freq):
-    """The reference: one empymod.bipole call for one triple."""
+def bipole_direct(src, rec, depth, cond_h, cond_v, eperm, mperm, freq, pos=None):
+    """The reference: one empymod.bipole call for one triple; the receiver at its
+    absolute position [pos] (default: rec.coordinates_abs(src))."""
     import empymod
     aniso = None if cond_v is None else np.sqrt(cond_h / cond_v)
-    return empymod.bipole(src=src.coordinates, rec=rec.coordinates, depth=depth, res=1 / cond_h,
+    if pos is None:
+        pos = rec.coordinates_abs(src)[:3]
+    rc = (float(pos[0]), float(pos[1]), float(pos[2]), rec.azimuth, rec.elevation)
+    return empymod.bipole(src=src.coordinates, rec=rc, depth=depth, res=1 / cond_h,
                           aniso=aniso, freqtime=freq, msrc=src.xtype != 'electric',
                           mrec=rec.xtype != 'electric', strength=src.strength, epermH=eperm,
                           mpermH=mperm, epermV=None, mpermV=None, signal=None, squeeze=True, verb=1)
@@ -591,13 +620,14 @@ def bipole_direct(src, rec, depth, cond_h, cond_v, eperm, mperm, freq):
 
 def desc_to_args(c, d, mid):
     """Model descriptor (exact rationals) -> float arguments of the reference call."""
-    i, depth, ch, cv, ep, mp, f = d
+    i, pos, depth, ch, cv, ep, mp, f = d
+    pos = [float(x) for x in frl(pos)]
     bw = c['model'].map.backward
     cond_h = bw(layer_floats(frl(ch), c['lname'], mid))
     cond_v = bw(layer_floats(frl(cv[1]), c['lname'], mid)) if cv[0] else None
     eperm = layer_floats(frl(ep[1]), c['lname'], mid) if ep[0] else None
     mperm = layer_floats(frl(mp[1]), c['lname'], mid) if mp[0] else None
-    return i, np.array([float(x) for x in frl(depth)]), cond_h, cond_v, eperm, mperm, float(fr(f))
+    return i, pos, np.array([float(x) for x in frl(depth)]), cond_h, cond_v, eperm, mperm, float(fr(f))
 
 
 def compare_sim(c, answers, dis, hist):
@@ -616,7 +646,9 @@ def compare_sim(c, answers, dis, hist):
     n = 0
     c['ext'] = {}
     big = float(np.nanmax(np.abs(syn))) if np.isfinite(syn).any() else 0.0
-    for si, (rows, exts) in enumerate(answers):
+    c['ext0'] = {}
+    for si, (rows, exts, exts0) in enumerate(answers):
+        c['ext0'][si] = exts0
         code, rows = rows
         if code != 0:
             dis.append({'what': 'model layered_fwd returned an error where the implementation ran',
@@ -636,12 +668,12 @@ def compare_sim(c, answers, dis, hist):
                         return n
                     continue
                 hist['triple:computed'] = hist.get('triple:computed', 0) + 1
-                i, depth, ch, cv, ep, mp, f = desc_to_args(c, d, mid)
-                ref = complex(bipole_direct(srcs[si], recs[i], depth, ch, cv, ep, mp, f))
+                i, pos, depth, ch, cv, ep, mp, f = desc_to_args(c, d, mid)
+                ref = complex(bipole_direct(srcs[si], recs[i], depth, ch, cv, ep, mp, f, pos))
                 if not (np.isfinite(iv) and rel_close(iv, ref, 1e-10, 1e-3 * big)):
                     dis.append({'what': 'layered response differs from empymod.bipole of the model\'s layers',
                                 'case': sim_brief(c), 'triple': [si, ri, fi], 'impl': str(iv), 'model': str(ref),
-                                'layers': dict(depth=depth.tolist(), cond_h=ch.tolist(),
+                                'layers': dict(position=pos, depth=depth.tolist(), cond_h=ch.tolist(),
                                                cond_v=None if cv is None else cv.tolist())})
                     return n
     return n
@@ -670,7 +702,8 @@ def grad_case_coq(c, tag):
         rds = []
         for ri, rec in enumerate(recs):
             fin = np.isfinite(obs_all[si, ri, :])
-            code, mid, box, imat, props, hz, geo = c['ext'][si][ri]
+            # the gradient branch extracts WITHOUT merge
+            code, mid, box, imat, props, hz, geo = c['ext0'][si][ri]
             use_pw = (not c['lname']) and (not mid)
 
             def conv(vals):
@@ -707,7 +740,7 @@ def grad_case_coq(c, tag):
 
             def cl(a):
                 return '[' + '; '.join(V.qc(z if np.isfinite(z) else z0) for z in a) + ']'
-            rds.append(f"({qp(rec.center[:2])}, [" + '; '.join(V.coq_bool(bool(b)) for b in fin) + "], "
+            rds.append(f"({rcv(rec)}, [" + '; '.join(V.coq_bool(bool(b)) for b in fin) + "], "
                        f"{cl(obs_all[si, ri, :])}, {ql(np.where(fin, wgt_all[si, ri, :], 0.0))}, "
                        f"{cl(res_all[si, ri, :])})")
         base = '[' + '; '.join(f"({ri}%nat, ({ql(ch)}, {ql(cv) if cv is not None else '[]'}))"
@@ -715,7 +748,7 @@ def grad_case_coq(c, tag):
         txt_src += (f"Definition {tag}_base{si} : list (nat * (list Q * list Q)) := {base}.\n"
                     f"Definition {tag}_tab{si} : list ((nat * bool * nat) * list (Q * Q)) := ["
                     + ';\n '.join(entries) + "].\n"
-                    f"Definition {tag}_bip{si} (i : nat) (d ch : list Q) (cv ep mp : option (list Q)) "
+                    f"Definition {tag}_bip{si} (i : nat) (q : Q * Q * Q) (d ch : list Q) (cv ep mp : option (list Q)) "
                     f"(fs : list Q) : list (Q * Q) :=\n"
                     f"  let b := match find (fun t => Nat.eqb (fst t) i) {tag}_base{si} with "
                     f"Some t => snd t | None => ([], []) end in\n"
@@ -737,7 +770,7 @@ def grad_case_coq(c, tag):
     txt += txt_src
     for si in range(len(srcs)):
         txt += (f"Eval vm_compute in showgrad {nx} {ny} {nz} (layered_grad qleb {lg} (lookup {pwl}) "
-                f"{args[si]} {tag}_bip{si} (Some {tag}_rds{si})).\n")
+                f"{args[(si, 'g')]} {tag}_bip{si} (Some {tag}_rds{si})).\n")
     return txt
 
 
@@ -808,13 +841,22 @@ def run_sims(ctx, n, ngrad, dis, hist):
         for k in range(fi * per, min(n, fi * per + per)):
             c = cases[k]
             ns = len(c['survey'].sources)
-            a = [(ans[pos + 2 * s], ans[pos + 2 * s + 1]) for s in range(ns)]
-            pos += 2 * ns
+            a = [(ans[pos + 3 * s], ans[pos + 3 * s + 1], ans[pos + 3 * s + 2]) for s in range(ns)]
+            pos += 3 * ns
             nd = len(dis)
             triples += compare_sim(c, a, dis, hist)
             key = (c['lopts']['method'], c['mapping'], c['case'], c['pattern'], bool(c['lopts'].get('merge')))
             hist['method:' + c['lopts']['method']] = hist.get('method:' + c['lopts']['method'], 0) + 1
             hist['observed:' + c['pattern']] = hist.get('observed:' + c['pattern'], 0) + 1
+            nrel = sum(bool(r.relative) for r in c['survey'].receivers.values())
+            hist['receivers:relative'] = hist.get('receivers:relative', 0) + nrel
+            hist['receivers:absolute'] = hist.get('receivers:absolute', 0) + len(c['survey'].receivers) - nrel
+            if c['lopts'].get('merge'):
+                hist['sim:merge'] = hist.get('sim:merge', 0) + 1
+                if c['grad']:
+                    hist['sim:merge+gradient'] = hist.get('sim:merge+gradient', 0) + 1
+            if c['lname'] and np.all(c['model'].property_x[:, :, 0] == -1.0):
+                hist['sim:top=-1'] = hist.get('sim:top=-1', 0) + 1
             if len(dis) == nd:
                 seen.add(key)
                 okcases.append(c)
@@ -866,19 +908,39 @@ def correspondence(ctx):
 
 
 # ------------------------------------------------------------------ searcher
+def expand_layers(lay, nodes_z):
+    """Value of the (possibly merged) 1D model in every cell of the original column."""
+    zc = (nodes_z[:-1] + nodes_z[1:]) / 2
+    ln = lay.grid.nodes_z
+    idx = np.clip(np.searchsorted(ln, zc, side='right') - 1, 0, len(ln) - 2)
+    return idx
+
+
 def search_case(seed, thorough=False):
-    """Property checked directly on the implementation, laterally invariant model."""
+    """Property checked directly on the implementation, laterally invariant model.
+    Includes relative receivers, log-map profiles with stored value -1 on top,
+    merge=True, and the gradient with merge=True."""
     import random
     import emg3d
     rng = random.Random(seed)
     grid, hs, org = rand_grid(rng, (6, 6, 5) if thorough else (5, 5, 4), (2, 2, 2))
     mapping = rng.choice(MAPS)
     model, kw, mapping, case = rand_model(rng, grid, mapping=mapping, layered_ok=True, lateral_invariant=True)
+    if mapping.startswith('L') and seed % 2 == 0:
+        # top layer stores -1, for every property of the map
+        for nm in ('property_x', 'property_z'):
+            if getattr(model, nm) is not None:
+                getattr(model, nm)[:, :, 0] = -1.0
     vti = case == 'VTI'
-    base = dict(seed=seed, mapping=mapping, case=case, hx=hs[0], hy=hs[1], hz=hs[2], origin=org)
+    base = dict(seed=seed, mapping=mapping, case=case, hx=hs[0], hy=hs[1], hz=hs[2], origin=org,
+                profile_x=model.property_x[0, 0, :].tolist())
     survey, pattern = rand_survey(rng, grid, hs, org, rng.randint(1, 2), rng.randint(1, 3), rng.randint(1, 2),
-                                  with_data=True)
+                                  with_data=True, force_relative=True)
     base['observed'] = pattern
+    base['receivers'] = [[r.__class__.__name__, [float(x) for x in r.coordinates], bool(r.relative)]
+                         for r in survey.receivers.values()]
+    base['sources'] = [[s_.__class__.__name__, [float(x) for x in s_.coordinates]]
+                       for s_ in survey.sources.values()]
     bw = model.map.backward
     ch = bw(model.property_x[0, 0, :])
     cv = bw(model.property_z[0, 0, :]) if vti else None
@@ -892,11 +954,16 @@ def search_case(seed, thorough=False):
     ref = np.full(obs.shape, np.nan + 1j * np.nan)
     for si, ri, fi in itertools.product(range(len(srcs)), range(len(recs)), range(len(freqs))):
         if fin[si, ri, fi]:
+            # receiver at its ABSOLUTE position (source centre + offset when relative)
             ref[si, ri, fi] = bipole_direct(srcs[si], recs[ri], depth, ch, cv, ep, mp, freqs[fi])
-    opts = [{'method': 'midpoint'}, {'method': 'source'}, {'method': 'receiver'}]
+    opts = [{'method': 'midpoint'}, {'method': 'source'}, {'method': 'receiver', 'merge': True},
+            {'method': 'midpoint', 'merge': True}]
     for m in ('prism', 'cylinder'):
-        for _ in range(2):
-            opts.append({'method': m, 'ellipse': rand_ellipse(rng, hs)})
+        for q in range(2):
+            o = {'method': m, 'ellipse': rand_ellipse(rng, hs)}
+            if q:
+                o['merge'] = True
+            opts.append(o)
     sims = []
     for lo in opts:
         with warnings.catch_warnings():
@@ -913,55 +980,72 @@ def search_case(seed, thorough=False):
         if bad:
             k = tuple(int(x) for x in bad[0])
             return dict(base, signature='layered response on a laterally invariant model differs from '
-                        'empymod.bipole of its layers', layered_opts=lo, triple=k, observed_value=str(syn[k]),
+                        'empymod.bipole of its layers at the absolute receiver position', layered_opts=lo,
+                        triple=k, receiver_relative=bool(recs[k[1]].relative), observed_value=str(syn[k]),
                         required=str(ref[k]))
         sims.append(sim)
-    # weights
-    for _ in range(4):
+    # weights and layers (merged layers expanded back onto the column)
+    for q in range(6):
         m = rng.choice(['midpoint', 'prism', 'cylinder'])
         e = rand_ellipse(rng, hs)
+        mg = q % 2 == 1
         p0, p1 = rand_point(rng, grid, hs, org), rand_point(rng, grid, hs, org)
-        lay, im = model.extract_1d(m, p0, p1, ellipse=e, return_imat=True)
+        lay, im = model.extract_1d(m, p0, p1, ellipse=e, merge=mg, return_imat=True)
         if im.min() < 0 or abs(im.sum() - 1) > 1e-12:
             return dict(base, signature='extraction weights are not non-negative with sum one', method=m,
                         ellipse=e, p0=p0, p1=p1, min=float(im.min()), sum=float(im.sum()))
+        ln = lay.grid.nodes_z
+        if abs(ln[0] - grid.nodes_z[0]) > 1e-9 or abs(ln[-1] - grid.nodes_z[-1]) > 1e-9 or \
+                any(np.min(np.abs(grid.nodes_z - z)) > 1e-9 for z in ln):
+            return dict(base, signature='interfaces of the extracted 1D model are not interfaces of the column '
+                        'from top to bottom', method=m, merge=mg, p0=p0, p1=p1, observed_value=ln.tolist(),
+                        required=grid.nodes_z.tolist())
+        idx = expand_layers(lay, grid.nodes_z)
         for nm in model._def_properties:
-            if not np.allclose(getattr(lay, nm)[0, 0, :], getattr(model, nm)[0, 0, :], rtol=1e-10, atol=0):
+            got = getattr(lay, nm)[0, 0, :][idx]
+            req = getattr(model, nm)[0, 0, :]
+            if not all(rel_close(a, b, 1e-10, float(np.max(np.abs(req)))) for a, b in zip(got, req)):
                 return dict(base, signature='extracted layers of a laterally invariant model differ from its profile',
-                            method=m, ellipse=e, p0=p0, p1=p1, prop=nm,
-                            observed_value=getattr(lay, nm)[0, 0, :].tolist(),
-                            required=getattr(model, nm)[0, 0, :].tolist())
-    # gradient layer sums vs misfit change under a uniform perturbation of the layer
-    sim = sims[rng.randrange(len(sims))]
-    with warnings.catch_warnings():
-        warnings.simplefilter('ignore')
-        phi0 = float(sim.misfit)
-        raw = np.array(sim._compute_1d(gradient=True))
-    for comp, cond in ((0, ch), (2, cv)):
-        if cond is None:
-            continue
-        for k in range(len(cond)):
-            cp = cond.copy()
-            delta = cp[k] * 0.0001
-            cp[k] += delta
-            a, b = (cp, cv) if comp == 0 else (ch, cp)
-            phi1 = 0.0
-            for si, ri in itertools.product(range(len(srcs)), range(len(recs))):
-                f = fin[si, ri, :]
-                if not f.any():
-                    continue
-                r = np.atleast_1d(bipole_direct(srcs[si], recs[ri], depth, a, b, ep, mp,
-                                                np.array(freqs)[f])) - obs[si, ri, f]
-                w = sim.data.weights.data[si, ri, f]
-                phi1 += np.sum(w * (r.conj() * r)).real / 2
-            # per-receiver differences are formed in the code; compare with slack for cancellation
-            req = (phi1 - phi0) / delta
-            got = raw[comp, :, :, k].sum()
-            tol = 1e-6 * abs(req) + 1e-8 * phi0 / delta
-            if abs(got - req) > tol:
-                return dict(base, signature='layer sum of the layered FD gradient differs from the misfit change '
-                            'under a uniform perturbation of the layer', layered_opts=dict(sim.layered_opts),
-                            component='hv'[comp // 2], layer=k, observed_value=float(got), required=float(req))
+                            method=m, merge=mg, ellipse=e, p0=p0, p1=p1, prop=nm, observed_value=got.tolist(),
+                            required=req.tolist())
+    # gradient layer sums vs misfit change under a uniform perturbation of the layer:
+    # one setting without and one with layered_opts merge=True
+    nomerge = [k for k, lo in enumerate(opts) if not lo.get('merge')]
+    merged = [k for k, lo in enumerate(opts) if lo.get('merge')]
+    for sim in (sims[rng.choice(nomerge)], sims[rng.choice(merged)]):
+        with warnings.catch_warnings():
+            warnings.simplefilter('ignore')
+            phi0 = float(sim.misfit)
+            try:
+                raw = np.array(sim._compute_1d(gradient=True))
+            except Exception as e:    # noqa
+                return dict(base, signature='layered gradient raised on a valid problem',
+                            layered_opts=dict(sim.layered_opts), error=repr(e))
+        for comp, cond in ((0, ch), (2, cv)):
+            if cond is None:
+                continue
+            for k in range(len(cond)):
+                cp = cond.copy()
+                delta = cp[k] * 0.0001
+                cp[k] += delta
+                a, b = (cp, cv) if comp == 0 else (ch, cp)
+                phi1 = 0.0
+                for si, ri in itertools.product(range(len(srcs)), range(len(recs))):
+                    f = fin[si, ri, :]
+                    if not f.any():
+                        continue
+                    r = np.atleast_1d(bipole_direct(srcs[si], recs[ri], depth, a, b, ep, mp,
+                                                    np.array(freqs)[f])) - obs[si, ri, f]
+                    w = sim.data.weights.data[si, ri, f]
+                    phi1 += np.sum(w * (r.conj() * r)).real / 2
+                req = (phi1 - phi0) / delta
+                got = raw[comp, :, :, k].sum()
+                tol = 1e-6 * abs(req) + 1e-8 * phi0 / delta
+                if abs(got - req) > tol:
+                    return dict(base, signature='layer sum of the layered FD gradient differs from the misfit '
+                                'change under a uniform perturbation of the layer',
+                                layered_opts=dict(sim.layered_opts), component='hv'[comp // 2], layer=k,
+                                observed_value=float(got), required=float(req))
     return None
 
 
@@ -997,54 +1081,8 @@ def replay(ctx, payload):
 
 # ------------------------------------------------------------ known findings
 def known_checks(ctx):
-    import emg3d
-    out = []
-    grid = emg3d.TensorMesh([[512, 1024, 512, 256], [512, 512, 1024], [200, 100, 300, 400]],
-                            origin=(-1024, -1024, -900))
-    # 1. merge drops leading layers equal to -1 (witness of merge_drops_first_layer_refuted)
-    v = np.array([-1.0, 0.25, 0.5, 0.5])
-    m = emg3d.Model(grid, property_x=np.broadcast_to(v, (4, 3, 4)).copy(), mapping='LgConductivity')
-    try:
-        lay = m.extract_1d('midpoint', [0, 0], merge=True)
-        rep = not (lay.property_x.shape[2] == 3 and np.allclose(lay.property_x[0, 0, :], [-1, 0.25, 0.5])
-                   and np.allclose(lay.grid.nodes_z, [-900, -700, -600, 100]))
-    except Exception:    # noqa
-        rep = True
-    out.append((SIG_MERGE, rep, "Model.extract_1d(merge=True) on a log map whose top layer stores -1 "
-                "(LgConductivity 0.1 S/m): the layer is dropped and all interfaces shift "
-                "(np.r_[-1, v] sentinel); layered mode then models a different layering"))
-    # 2. relative receivers
-    src = emg3d.TxElectricDipole((-512, 0, -300, 20, 5))
-    ra = emg3d.RxElectricPoint((192, 96, -350, 0, 0))
-    rr = emg3d.RxElectricPoint((704, 96, -50, 0, 0), relative=True)
-    survey = emg3d.Survey(src, [ra, rr], [1.0])
-    model = emg3d.Model(grid, property_x=np.broadcast_to([1., 2, .5, 3.], (4, 3, 4)).copy(),
-                        mapping='Conductivity')
-    with warnings.catch_warnings():
-        warnings.simplefilter('ignore')
-        sim = emg3d.Simulation(survey, model, layered=True, layered_opts={'method': 'midpoint'},
-                               max_workers=1, tqdm_opts=False, gridding='same', verb=-1)
-        sim.compute()
-    d = sim.data.synthetic.data[0, :, 0]
-    out.append((SIG_REL, not rel_close(d[0], d[1], 1e-9), "layered() uses rec.coordinates / rec.center, not "
-                "coordinates_abs(src): a relative receiver is modelled at its offset as an absolute position"))
-    # 3. merge + gradient
-    survey = emg3d.Survey(src, [ra], [1.0], noise_floor=1e-15, relative_error=0.05)
-    survey.data.observed[...] = 1e-11 + 1e-11j
-    model = emg3d.Model(grid, property_x=np.ones((4, 3, 4)), mapping='Conductivity')
-    gs = []
-    rep = False
-    for mg in (False, True):
-        with warnings.catch_warnings():
-            warnings.simplefilter('ignore')
-            sim = emg3d.Simulation(survey, model, layered=True, layered_opts={'method': 'midpoint', 'merge': mg},
-                                   max_workers=1, tqdm_opts=False, gridding='same', verb=-1)
-            try:
-                gs.append(np.array(sim.gradient).sum(axis=(0, 1)))
-            except Exception:    # noqa
-                rep = True
-    if len(gs) == 2 and not np.allclose(gs[0], gs[1], rtol=1e-6):
-        rep = True
-    out.append((SIG_MGRAD, rep, "layered gradient with layered_opts merge=True: ValueError (broadcast) or, when "
-                "all layers merge, the whole-column derivative in every layer"))
-    return out
+    """The three defects found while building C19 (merge sentinel -1, relative
+    receivers, merge + gradient) are repaired in emg3d (docs/fix_C19_*.diff);
+    their inputs are part of the correspondence stream and of the searcher, so
+    a regression is an ordinary VIOLATION."""
+    return []
